@@ -94,7 +94,7 @@ PROPS["C20"] = dict(
 )
 
 PROPS["C12"] = dict(
-    modules=["contracts.sched_sql", "contracts.C12_limits"],
+    modules=["contracts.sched_sql", "contracts.C12_limits", "contracts.C10_meta"],
     decided=["a step is moved to RUNNING only if it is safe (including holds) and every required resource is defined and "
              "not over-committed by RUNNING steps (SQL, exact)", "the invariant used <= available is preserved by the "
              "dispatch transaction", "job_loop starts a job only below the job limit", "hold/release counter contracts",
@@ -123,7 +123,7 @@ PROPS["C15"] = dict(
 )
 
 PROPS["C10"] = dict(
-    modules=["contracts.sched_sql", "contracts.C12_limits", "contracts.C10_dispatch", "contracts.C09_setters", "contracts.C10_bounded"],
+    modules=["contracts.sched_sql", "contracts.C12_limits", "contracts.C10_dispatch", "contracts.C09_setters", "contracts.C10_meta", "contracts.C10_bounded"],
     decided=["the dispatch query is exact over the cached columns (both directions)", "coherence of _ready / _has_hash: "
              "every row event in the read footprint has a trigger flagging the affected steps; only the recomputation "
              "clears the flag; recomputation precedes selection in the same transaction",
@@ -282,8 +282,7 @@ PROPS["C07"] = dict(
 )
 
 PROPS["C11"] = dict(
-    modules=["contracts.sched_sql", "contracts.C12_limits", "contracts.C10_dispatch", "contracts.C06_clean",
-             "contracts.C18_under", "contracts.C11_need", "contracts.C19_targets", "contracts.C11_bounded"],
+    modules=["contracts.sched_sql", "contracts.C12_limits", "contracts.C10_dispatch", "contracts.C06_clean", "contracts.C18_under", "contracts.C11_need", "contracts.C19_targets", "contracts.C10_meta", "contracts.C11_bounded"],
     decided=["the recomputation statement sets the cached need to max(declared need, TARGET elevation, needs of the attached "
              "consuming steps), with the elevation exactly as the property states (exact file target on a regular output; "
              "DEFAULT step with a regular output under a directory target)", "the dispatch query requires the cached need "
@@ -322,7 +321,7 @@ PROPS["C17"] = dict(
 )
 
 PROPS["C02"] = dict(
-    modules=["contracts.C08_claims", "contracts.C08_bounded", "contracts.C02_order", "contracts.C02_bounded"],
+    modules=["contracts.C09_setters", "contracts.C08_claims", "contracts.C08_bounded", "contracts.C02_order", "contracts.C02_bounded"],
     decided=["every list argument of define_step, amend_step and declare_static_files is used only through "
              "sorted(set(argument)) (dataflow scan)", "node enumerations are ordered by the unique key (kind, label)",
              "acceptance of two conflicting declarations is decided by the same conflict predicate in both arrival orders "
